@@ -195,16 +195,20 @@ struct Case {
     /// how the streams are called: 0 = unrelated names, 1 = names that are suffixes / prefixes
     /// of one another, 2 = names that differ in letter case only
     naming: u8,
+    /// the query declares PREFIX k: <http://k/> and spells its vocabulary IRIs as prefixed names
+    prefixed: bool,
     /// (stream, triple, timestamp) in feeding order; per stream the timestamps never decrease
     feed: Vec<(usize, LT, usize)>,
 }
 
 thread_local! {
     static NAMING: std::cell::Cell<u8> = const { std::cell::Cell::new(0) };
+    static PREFIXED: std::cell::Cell<bool> = const { std::cell::Cell::new(false) };
 }
 /// the stream names of the case being handled (set by every function that takes the case)
 fn use_naming(cs: &Case) {
     NAMING.with(|n| n.set(cs.naming));
+    PREFIXED.with(|p| p.set(cs.prefixed));
 }
 fn stream_name(i: usize) -> String {
     match NAMING.with(|n| n.get()) {
@@ -257,7 +261,17 @@ fn stream_for_feed(w: &Win, variant: u64) -> String {
 fn term_text(t: &T) -> String {
     match t {
         T::V(x) => format!("?{}", x),
-        T::C(k) => format!("<{}>", k),
+        T::C(k) => {
+            // under a PREFIX k: declaration vocabulary IRIs are written as prefixed names
+            if PREFIXED.with(|p| p.get()) {
+                if let Some(local) = k.strip_prefix("http://k/") {
+                    if !local.is_empty() && local.chars().all(|ch| ch.is_ascii_alphanumeric() || ch == '_') {
+                        return format!("k:{}", local);
+                    }
+                }
+            }
+            format!("<{}>", k)
+        }
     }
 }
 fn pats_text(p: &[TP]) -> String {
@@ -268,6 +282,9 @@ fn query_text(cs: &Case) -> String {
     use_naming(cs);
     let mut q = String::new();
     let op = ["RSTREAM", "ISTREAM", "DSTREAM"][cs.stream_op as usize % 3];
+    if cs.prefixed {
+        q.push_str("PREFIX k: <http://k/>\n");
+    }
     q.push_str(&format!("REGISTER {} <http://out/stream> AS\nSELECT *\n", op));
     for (i, w) in cs.wins.iter().enumerate() {
         let mut spec = format!("RANGE {} STEP {}", w.width, w.slide);
@@ -636,6 +653,7 @@ fn gen_case(r: &mut Rng, size: Size, thorough: bool) -> Case {
         shared_vocab,
         lockstep: r.chance(1, 3),
         naming: if r.chance(2, 5) { r.range(1, 2) as u8 } else { 0 },
+        prefixed: r.chance(2, 5),
         feed,
     };
     limit_size(&mut cs, if thorough { 400_000 } else { 120_000 });
